@@ -127,6 +127,8 @@ class C01(flow.Spec):
     def oracle_lines(self, case, impl_obs):
         """the order-free specification (row_spec, extracted from Coq) judged on what the real
         extension shows: per site, all records it produced or merged vs the rows of its last dump"""
+        if case.startswith("cluster") and not impl_obs.startswith(("ERR", "PANIC", "CRASH")):
+            return self.cluster_oracle(case, impl_obs)
         if not case.startswith("crdtsim") or impl_obs.startswith(("ERR", "PANIC", "CRASH")):
             return []
         steps = impl_obs.split(" # ")
@@ -165,6 +167,40 @@ class C01(flow.Spec):
             t.append(str(len(rows)))
             for row, ent in sorted(rows.items(), key=lambda kv: int(kv[0])):
                 t += [row, ent["cl"], "1" if ent["col"] else "0", ent["col"][0] if ent["col"] else "0", ent["col"][1] if ent["col"] else "0"]
+        return [" ".join(t)]
+
+    def cluster_oracle(self, case, impl_obs):
+        """the conclusion of the cluster theorem judged on the real agents: at quiescence (every node
+        advertises the same heads, needs nothing, holds no partial) every node's table must be
+        table (merge_all [] U), U = the records of all acknowledged transactions as their origins
+        broadcast them -- whenever U is inside the theorem's hypotheses (wf, no_tie, clk_unique)"""
+        steps = impl_obs.split(" # ")
+        mr = re.search(r" recs=(\S*)", steps[0])
+        if not mr or " panics=" in steps[0]:
+            return []
+        nodes = []
+        for st in steps[1:]:
+            mm = re.match(self.NODE, st.strip())
+            if not mm:
+                return []
+            nodes.append(mm.groups())
+        if any(n[2] != nodes[0][2] or n[3] != "0" or n[4] != "0" for n in nodes):
+            return []                      # not quiescent: judged by impl_verdict
+        recs = [x for x in mr.group(1).split(",") if x]
+        ident = {i: i for i in range(10)}
+        t = ["chk_cluster", str(len(recs))]
+        for r in recs:
+            try:
+                t += rec_tokens(r, ident)
+            except Exception:
+                return []                  # a value outside the model's domain (not a 4-digit text)
+        t.append(str(len(nodes)))
+        for n in nodes:
+            cells = [c for c in n[0].split(",") if c]
+            t.append(str(len(cells)))
+            for c in cells:
+                row, val = c.split("=", 1)
+                t += [row, str(int(val)) if val.isdigit() else "-1"]
         return [" ".join(t)]
 
     NODE = r"tbl=(\S*) clk=(\S*) heads=(\S*) need=(\d+) pneed=(\d+)(?: dup=(\S*))?"
